@@ -827,6 +827,9 @@ func (s *Store) SetUserinfoFromRequest(ctx context.Context, ui *oidc.UserInfo, r
 	}
 	s.mu.Lock()
 	defer s.mu.Unlock()
+	if s.extUserinfoSplit(ui, req.GetSubject(), scopes) { // ext_c06.go: false unless EnableUserinfoSplit was called
+		return nil
+	}
 	s.setUserinfo(ui, req.GetSubject(), scopes)
 	return nil
 }
